@@ -74,11 +74,14 @@ function viaApply(n){ return bombLoop.apply(null, [n]); }
 function viaSpecies(n){ class A extends Array { static get [Symbol.species](){ bombLoop(n); return Array; } } return new A(1,2,3).map(function(x){return x}).length; }
 function viaIter(n){ var it={ [Symbol.iterator](){ var i=0; return { next(){ bombLoop(n); return {done: i++>=2, value:i}; }, return(){ print('iter return'); return {}; } }; } }; var s=0; for (var v of it) s+=v; return s; }
 var R = function r(d){ return d<=0 ? 0 : 1 + r(d-1); };
+function viaForeign(n){ return foreign.bomb(n); }
+function viaForeignRec(n){ return foreign.rec(n); }
+function viaForeignCallback(n){ return [1].map(function(){ return foreign.bomb(n); })[0]; }
 "#;
 
 const ROUTES: &[&str] = &[
     "bombLoop", "bombWhile", "bombRec", "viaMap", "viaGetter", "viaProxy", "viaSort", "viaToString", "viaReviver",
-    "viaReflect", "viaEval", "viaFunction", "viaGen", "viaBind", "viaApply", "viaSpecies", "viaIter",
+    "viaReflect", "viaEval", "viaFunction", "viaGen", "viaBind", "viaApply", "viaSpecies", "viaIter", "viaForeign", "viaForeignRec", "viaForeignCallback",
 ];
 
 struct Gen<'a> {
@@ -251,6 +254,10 @@ impl Gen<'_> {
             13 => (Op::Call { func: "Cls".into(), args: vec![1] }, "call-class-without-new"),
             14 => (Op::Construct { func: "K".into(), args: vec![-1] }, "construct-throw"),
             15 => (Op::Construct { func: "Cls".into(), args: vec![-1] }, "construct-class-throw"),
+            16 if self.rng.chance(1, 2) => (
+                mk("Promise.resolve().then(foreign.thrower).catch(function(e){ print('foreign rejected', e.name); }); foreign.thrower();".into(), budgeted, self.rng),
+                "throw-foreign-realm",
+            ),
             16 => (Op::Call { func: "Math".into(), args: vec![] }, "call-non-callable"),
             17 => (
                 mk(
@@ -292,6 +299,15 @@ impl Gen<'_> {
         };
         let via = self.rng.below(6);
         let op = match via {
+            // a function of the other realm is itself the reaction handler / thenable: the job runs in
+            // that realm and the limit error comes out of run_jobs
+            4 if self.rng.chance(1, 2) => Op::Eval {
+                src: match self.rng.below(3) {
+                    0 => format!("Promise.resolve({n}).then(foreign.bomb);"),
+                    1 => format!("Promise.resolve(foreign.thenable({n})).then(function(v){{ print('thenable', v); }});"),
+                    _ => format!("Promise.resolve({n}).then(foreign.rec);"),
+                },
+            },
             // the bomb runs inside a promise job / await continuation: the error comes out of run_jobs
             4 => Op::Eval { src: format!("Promise.resolve().then(function(){{ {route}({n}); }}).catch(function(){{ print('caught'); }});") },
             5 => Op::Eval {
@@ -547,7 +563,7 @@ fn probe_suite(ctx: &mut Context, host: &Host, sc: &Scenario) -> Vec<String> {
     let mut out = vec![];
     host.trace.take();
     let r = ctx.eval(Source::from_bytes(
-        "print(typeof bombLoop, bombLoop(5), thrower.length); try { thrower(2) } catch (e) { print(e.name) } print(R(3));",
+        "print(typeof bombLoop, bombLoop(5), thrower.length, typeof marker, typeof foreign, this === globalThis); try { thrower(2) } catch (e) { print(e.name, e instanceof RangeError) } print(R(3)); var probeVar = 1; print(typeof probeVar);",
     ));
     out.push(js::completion(&r, ctx));
     let mut rl = RuntimeLimits::default();
@@ -567,6 +583,24 @@ fn probe_suite(ctx: &mut Context, host: &Host, sc: &Scenario) -> Vec<String> {
     out
 }
 
+const FOREIGN: &str = r#"
+var marker = 'other-realm';
+({ bomb: function foreignBomb(n){ var s=0; for (var i=0;i<n;i++){ s+=i; } return s; },
+   rec: function foreignRec(d){ return d<=0 ? 0 : 1+foreignRec(d-1); },
+   thrower: function foreignThrower(){ throw new RangeError('foreign'); },
+   thenable: function(n){ return { then: function(res){ var s=0; for (var i=0;i<n;i++){ s+=i; } res(s); } }; } })
+"#;
+
+/// A second realm in the same context whose functions are published on the main realm's global:
+/// jobs and calls that run them switch realms and must switch back on every exit path.
+fn install_foreign(ctx: &mut Context) {
+    let main = ctx.realm().clone();
+    let other = ctx.create_realm().expect("realm");
+    let script = boa_engine::Script::parse(Source::from_bytes(FOREIGN), Some(other), ctx).expect("parse");
+    let exports = script.evaluate(ctx).expect("foreign realm setup");
+    let _ = main.register_property(js_string!("foreign"), exports, boa_engine::property::Attribute::all(), ctx);
+}
+
 pub fn execute(v: &Value) -> RunReport {
     let sc: Scenario = serde_json::from_value(v.clone()).expect("scenario");
     let mut rep = RunReport::default();
@@ -574,6 +608,7 @@ pub fn execute(v: &Value) -> RunReport {
     let mut sfp = Fp::default();
     // X: the full history
     let (mut x, hx) = js::new_default_context();
+    install_foreign(&mut x);
     x.eval(Source::from_bytes(PRELUDE)).expect("prelude");
     let mut xlog: Vec<(String, Vec<String>)> = vec![];
     for (i, e) in sc.entries.iter().enumerate() {
@@ -622,6 +657,7 @@ pub fn execute(v: &Value) -> RunReport {
     let px = probe_suite(&mut x, &hx, &sc);
     // Y: only what succeeded on X
     let (mut y, hy) = js::new_default_context();
+    install_foreign(&mut y);
     y.eval(Source::from_bytes(PRELUDE)).expect("prelude");
     for (i, e) in sc.entries.iter().enumerate() {
         if failed(&xlog[i].0) {
